@@ -14,7 +14,7 @@ ANCHORS = ['numdifftools.extrapolation:EpsAlg.__call__', 'numdifftools.extrapola
            'numdifftools.extrapolation:Dea._update_res3la']
 MIN_COUNTERS = dict(quick={'epsalg_entries_asserted': 2700, 'epsalg_complex_entries_asserted': 600, 'epsalg_recovery_asserted': 300,
                            'dea_calls_total_asserted': 50000, 'dea_floor_asserted': 50000,
-                           'dea_first_three_asserted': 1500, 'dea_table_membership_asserted': 3000, 'dea_branch:table_capped_at_limexp': 100,
+                           'dea_first_three_asserted': 1500, 'dea_table_membership_asserted': 3000, 'dea_table_membership_after_guards_or_cap_asserted': 3000, 'dea_branch:table_capped_at_limexp': 100,
                            'dea_branch:all_converged': 100, 'dea_branch:partial_convergence_shrinks_table': 100},
                     thorough={'epsalg_entries_asserted': 100000, 'dea_calls_total_asserted': 2000000})
 RULE = ('Two further families: extreme (subnormal terms, units of 1e+-20..140, values up to 1e100) and integers (terms as Python / numpy integers). ' 
@@ -470,6 +470,28 @@ def run_case(case, ctx):
                 ctx.reject('dea_result_is_no_even_entry_of_the_epsilon_table', observed=r,
                            expected=[to_float(c) for c in cands], detail=dict(at_term=i + 1, seq=seq[:i + 1]))
                 return
+        elif finite_in and limexp <= 11 and i >= 2 and not (_hist['branches'] <= {'regular'}) and meta.get('epsalg') is not False:
+            # a guard has fired or the table is capped at limexp: the routine only ever *drops* entries of its condensed table, and
+            # eps_j^(i-j) depends on the last j + 1 terms alone, so the result is still an even-order entry of the newest
+            # anti-diagonal - of the exact table of the last limexp + 1 terms.  Judged where that table is well conditioned.
+            suffix = seq[max(0, i - limexp):i + 1]
+            cols_s, ok_s = wynn_table(suffix)
+            if ok_s and len(suffix) >= 3 and _min_rel_diff(cols_s) >= 1e-3:
+                ex_s = _even_entry(cols_s, len(suffix))
+                sp_s = _spread_mp(suffix, len(suffix), ex_s, prng, 4) if ex_s is not None else None
+                if sp_s is not None:
+                    cands = [cols_s[j][-1] for j in range(0, len(cols_s), 2) if cols_s[j]]
+                    scale = max(max(abs(v) for v in suffix), max(to_float(abs(c)) for c in cands))
+                    best = min(to_float(abs(F(r) - c)) for c in cands)
+                    ctx.count('dea_table_membership_after_guards_or_cap_asserted')
+                    tol = 1e-7 * scale + C_EPS * _spread_mp.any_even
+                    ctx.maximum('dea_membership_after_guards_err/tol', best / tol if tol > 0 else 0.0)
+                    if scale > 0 and best > tol:
+                        ctx.reject('dea_result_is_no_even_entry_of_the_epsilon_table', observed=r,
+                                   expected=[to_float(c) for c in cands], detail=dict(at_term=i + 1, seq=suffix, limexp=limexp,
+                                                                                       after=sorted(_hist['branches'])),
+                                   after_guards_or_cap=True)
+                        return
         if i >= 2:
             ctx.count('dea_floor_asserted')
             if not e >= 5.0 * EPS * abs(r) * (1 - 4 * EPS):
